@@ -2,6 +2,12 @@
 from . import sensorprop as SP
 from .. import invmon as IM
 
+def _mon_readonly_all(st, ctx, goodwe):
+    from .. import siminv as SI
+    IM.mon_readonly(st, ctx, goodwe)
+    if SI.E2E['on']: IM._readonly_connect_failures(st, ctx, goodwe)
+
+
 SPEC = dict(
     level='proof',
     manifest=dict(
@@ -19,7 +25,7 @@ SPEC = dict(
              'dispatch makes the generator abort). What is actually transmitted is decided by the monitor.',
         technique='Coq reachability proof over a generated call graph + Coq proofs on register-file models with generated guards + request monitor on the real classes',
         design_ref='DESIGN.md section 5 (C18)'),
-    stages=[SP.inv_stage('read-only-monitor', IM.mon_readonly, e2e=True)],
+    stages=[SP.inv_stage('read-only-monitor', _mon_readonly_all, e2e=True)],
     theorems=['C18_monitoring_api_constructs_reads_only', 'C18_entry_points_read_only', 'C18_setters_do_reach_writes', 'C18_et_export_limit_rejects',
               'C18_dt_export_limit_rejects', 'C18_et_dod_rejects', 'C18_eco_mode_arguments_rejected', 'C18_model_reads_transmit_no_write'],
     rule='families x model configurations x capability fallbacks x read-only call sequences; invalid arguments around the valid intervals of every setter',
